@@ -38,6 +38,8 @@ inductive Kind where
   | shallow  -- array of `Repr::String`
   | udata    -- userdata without `deep_clone`
   | code     -- the `BytecodeFunction` a closure points to (always in a global heap)
+  | aarr     -- array of `Repr::Array` (elements cloned by `deep_clone_array`, value.rs:1705)
+  | uarr     -- array of `Repr::Userdata` (elements cloned by `deep_clone_userdata`, value.rs:1711)
   deriving DecidableEq, Repr, Inhabited
 
 structure Obj where
@@ -213,15 +215,28 @@ def cellCopy (k : Cl → Nat → Option (Cl × Nat)) (dst thr : HeapId) (c : Cl)
   | none => none
   | some (c2, es) => some (⟨c2.s.push ⟨dst, thr, .cell, es⟩, c2.vis⟩, c2.s.next)
 
-/-- `Cloner::deep_clone_inner`. `dst` = the heap of the cloner's `gc`, `thr` = the heap of the
-    cloner's `thread` (they differ only in the promotion of module values, query.rs:759-760),
-    `fixed = true` is the repaired cloner (string arrays cloned element-wise, userdata cells
-    entered into `visited`). -/
+/-- `Cloner::deep_clone_inner` (value.rs:1556) and the two element paths of `deep_clone_array` that
+    bypass its first test. `dst` = the heap of the cloner's `gc`, `thr` = the heap of the cloner's
+    `thread` (they differ only in the promotion of module values, query.rs:759-760).
+
+    `ns = true` ("no shortcut at this node") is how an ELEMENT of an array of arrays
+    (`deep_clone_array(e)`, value.rs:1705) and an element of an array of userdata
+    (`deep_clone_userdata(e)` = `e.deep_clone(self)`, value.rs:1666 and :1711) are cloned: neither
+    consults `receiver_generation` (value.rs:1560), so the element is copied even when the receiver
+    could share it; below the element the ordinary rule applies again (`Reference::deep_clone`
+    calls `deep_cloner.deep_clone(&value)`, reference.rs:32).
+
+    `rgen` is `receiver_generation`: the generation of `dst` when sender and receiver are on one
+    ancestor line, `none` (= `Generation::disjoint()`) after `force_full_clone` — NOT the
+    generation of the heap `dst` itself (see `Props.C13.heap_generation_shortcut_fails`).
+
+    `fixed = true` is the repaired cloner: string arrays cloned element-wise, userdata cells
+    entered into `visited`, every element cloned by the ordinary rule. -/
 def cloneVal (dst thr : HeapId) (rgen : Option Nat) (fixed : Bool) :
-    Nat → Cl → Nat → Option (Cl × Nat)
-  | 0, _, _ => none
-  | f + 1, c, v =>
-    if shareable c.s rgen v then some (c, v) else
+    Nat → Bool → Cl → Nat → Option (Cl × Nat)
+  | 0, _, _, _ => none
+  | f + 1, ns, c, v =>
+    if !ns && shareable c.s rgen v then some (c, v) else
     match c.s.obj v with
     | none => some (c, v)
     | some o =>
@@ -231,20 +246,22 @@ def cloneVal (dst thr : HeapId) (rgen : Option Nat) (fixed : Bool) :
       -- value.rs:1722-1726 `ClosureDataDef(&data.function, …)`: the function pointer of a closure
       -- is copied verbatim, also under `force_full_clone`
       | .code => some (c, v)
-      | .plain => viaVisited (cloneVal dst thr rgen fixed f) dst c v o .plain dst
+      | .plain => viaVisited (cloneVal dst thr rgen fixed f false) dst c v o .plain dst
+      | .aarr => viaVisited (cloneVal dst thr rgen fixed f (!fixed)) dst c v o .aarr dst
+      | .uarr => viaVisited (cloneVal dst thr rgen fixed f (!fixed)) dst c v o .uarr dst
       | .shallow =>
-        if fixed then viaVisited (cloneVal dst thr rgen fixed f) dst c v o .shallow dst
+        if fixed then viaVisited (cloneVal dst thr rgen fixed f false) dst c v o .shallow dst
         else shallowCopy dst c v o
       | .cell =>
-        if fixed then viaVisited (cloneVal dst thr rgen fixed f) dst c v o .cell thr
-        else cellCopy (cloneVal dst thr rgen fixed f) dst thr c o
+        if fixed then viaVisited (cloneVal dst thr rgen fixed f false) dst c v o .cell thr
+        else cellCopy (cloneVal dst thr rgen fixed f false) dst thr c o
 
 def cloneFuel (s : State) : Nat := s.next + 2
 
 /-- `Cloner::deep_clone` with a fresh `visited` map. -/
 def deepClone (s : State) (dst thr : HeapId) (rgen : Option Nat) (fixed : Bool) (v : Nat) :
     Option (State × Nat) :=
-  match cloneVal dst thr rgen fixed (cloneFuel s) ⟨s, []⟩ v with
+  match cloneVal dst thr rgen fixed (cloneFuel s) false ⟨s, []⟩ v with
   | none => none
   | some (c, r) => some (c.s, r)
 
